@@ -37,6 +37,10 @@ def codec_witness(prop, failures, repo, verif, workdir, seed, log):
 
 
 def replace_witness(prop, failures, repo, verif, workdir, seed, log):
+    if any("rope_core" in f.name for f in failures):
+        r = rope_witness(prop, failures, repo, verif, workdir, seed, log)
+        if r.get("found") or all("rope_core" in f.name for f in failures):
+            return r
     t0 = time.time()
     try:
         binary = twin.build(repo, verif, workdir, log)
@@ -120,7 +124,30 @@ def ropebounds_witness(prop, failures, repo, verif, workdir, seed, log):
     return {"found": False, "inputs_tried": r["tried"], "search_s": round(time.time() - t0, 1)}
 
 
+ROPE_CRIT = {"C19": "unsafe", "C17": "panic"}
+
+
+def rope_witness(prop, failures, repo, verif, workdir, seed, log):
+    """random rope programs against the flat-string model; criterion by property (C16/C05: any wrong answer, panic or abort;
+    C17: panic or abort; C19: abort by std's unsafe-precondition check, or a wrong byte_slice_unchecked answer on a valid range)"""
+    t0 = time.time()
+    try:
+        binary = twin.build(repo, verif, workdir, log)
+    except Exception as e:
+        return {"found": False, "error": str(e)[:600]}
+    crit = ROPE_CRIT.get(prop, "any")
+    r = twin.run(binary, ["search-rope", seed + 1, 2500, crit], timeout=280)
+    if r["found"]:
+        log(f"  witness (search-rope/{crit}, {r['tried']} rope programs tried): {r['input']}: {r['detail']}")
+        return {"found": True, "kind": "rope", "input": r["input"], "detail": r["detail"], "inputs_tried": r["tried"], "criterion": crit, "search_s": round(time.time() - t0, 1),
+                "replays_on": "real crate built from the checked tree (debug build): public API of Rope, every observation against a String model"}
+    log(f"  witness search: no failing rope program among {r['tried']} (criterion {crit})")
+    return {"found": False, "inputs_tried": r["tried"], "search_s": round(time.time() - t0, 1)}
+
+
 def c19_witness(prop, failures, repo, verif, workdir, seed, log):
+    if any("rope_core" in f.name for f in failures):
+        return rope_witness(prop, failures, repo, verif, workdir, seed, log)
     if any("rope_degenerate" in f.name for f in failures):
         t0 = time.time()
         try:
@@ -138,6 +165,8 @@ def c19_witness(prop, failures, repo, verif, workdir, seed, log):
 
 
 def mixed_witness(prop, failures, repo, verif, workdir, seed, log):
+    if any("rope_core" in f.name for f in failures):
+        return rope_witness(prop, failures, repo, verif, workdir, seed, log)
     if any("rope_bounds" in f.name for f in failures):
         return ropebounds_witness(prop, failures, repo, verif, workdir, seed, log)
     if any("helpers_tokens" in f.name for f in failures):
@@ -156,7 +185,7 @@ def replay(prop, path, repo, verif, workdir, log):
     if not w.get("found"):
         return None
     binary = twin.build(repo, verif, workdir, log)
-    kind = {"enc": "replay-enc", "lines": "replay-lines", "dec": "replay-dec", "replace": "replay-replace", "eqhash": "replay-eqhash", "wildmap": "replay-wildmap", "tokens": "replay-tokens", "ropebounds": "replay-ropebounds", "ropedegenerate": "replay-ropedegenerate"}[w["kind"]]
+    kind = {"enc": "replay-enc", "lines": "replay-lines", "dec": "replay-dec", "replace": "replay-replace", "eqhash": "replay-eqhash", "wildmap": "replay-wildmap", "tokens": "replay-tokens", "ropebounds": "replay-ropebounds", "ropedegenerate": "replay-ropedegenerate", "rope": "replay-rope"}[w["kind"]]
     inp = w["input"]
     if w["kind"] == "dec":
         import ast
@@ -164,7 +193,7 @@ def replay(prop, path, repo, verif, workdir, log):
     import subprocess
     crit = {"C11": "wire", "C19": "wire", "C17": "panic"}.get(prop, "bytes") if w["kind"] in ("enc", "lines", "dec") else "bytes"
     try:
-        p = subprocess.run([binary, kind, inp], capture_output=True, text=True, timeout=60, env=dict(os.environ, TWIN_CRIT=crit))
+        p = subprocess.run([binary, kind, inp], capture_output=True, text=True, timeout=60, env=dict(os.environ, TWIN_CRIT=crit, TWIN_ROPE_CRIT=w.get("criterion", "any")))
     except subprocess.TimeoutExpired:
         log("REPRODUCED: the real code does not return within 60 s on the recorded input (hang)")
         return True
